@@ -28,7 +28,7 @@ ANCHORS = ['annotations:Condition.__and__', 'annotations:Condition.__or__', 'ann
            'converters:ConditionalConverter.try_convert', 'converters:ConditionalConverter.collect_errors',
            'converters:ConditionalConverter.into_data', 'convert:_annotated_converter']
 MIN_COUNTERS = {'quick': {'checked': 40000, 'accepted': 8000, 'rejected_by_condition': 8000, 'rejected_by_inner': 2000,
-                          'predicate_raised': 2000, 'boundary_values': 5000, 'serialise_checked': 8000, 'multi_condition_annotations': 3000, 'same_name_condition_annotations': 300}}
+                          'predicate_raised': 2000, 'boundary_values': 5000, 'serialise_checked': 8000, 'multi_condition_annotations': 3000, 'same_name_condition_annotations': 300, 'mutated_between_calls_checked': 200}}
 
 E = env.m_errors
 THRESH = (0, 1, 5, -3, 2.5, 10, float('inf'), float('-inf'))     # (bounds that come from parameters defaulting to -inf / +inf)
